@@ -276,6 +276,36 @@ def _scen_job(choice):
                                   "engine": "state_graph_dp", "choice": choice, "scenario": spec_to_json(spec),
                                   "detail": {"optimal_episode_reward": best, "advertised_upper_bound": ub,
                                              "advertised_minimum_hops": hops}})
+    # a goal-reaching episode may also be the SECOND episode of an environment object: play the model's plan
+    # through step(), reset(), and take the state the environment then starts from as the root
+    from .seams import draw_values
+    env2 = ctx.env
+    env2.reset()
+    ms_c, plan = model.closure_plan()
+    idx = {}
+    for i, m in enumerate(ctx.mactions):
+        if m is not None:
+            idx[(m["type"], m["name"], tuple(m["target"]))] = i
+    for act in plan:
+        i = idx.get((act["type"], act["name"], tuple(act["target"])))
+        if i is None:
+            break
+        ctx.seam.arm(draw_values(act["prob"])["below"])
+        env2.step(ctx.actions[i])
+    env2.reset()
+    root2 = env2.current_state
+    out["second_episode_roots"] = 1
+    if root2.tensor.tobytes() != keys[0]:
+        res2 = explore(ctx, [], record_graph=True, root_state=root2.copy())
+        keys2 = list(res2["seen"].keys())
+        goal2 = {k for k, s in zip(keys2, res2["order"]) if model.goal(ctx.decode(k, s.tensor))}
+        best2 = 0.0 if keys2[0] in goal2 else (optimum(res2["graph"], keys2[0], goal2) if goal2 else None)
+        if best2 is not None and best2 > ub + 1e-9:
+            out["violations"].append({"property": "C20", "kind": "goal_reaching_episode_after_reset_beats_advertised_score_upper_bound",
+                                      "engine": "state_graph_dp", "choice": choice, "scenario": spec_to_json(spec),
+                                      "detail": {"optimal_reward_of_an_episode_started_after_reset": best2,
+                                                 "advertised_upper_bound": ub,
+                                                 "note": "the environment's state after (episode, reset()) differs from the initial state"}})
     if choice["fw_kind"] == "allow_all":
         min_comp = min(sum(1 for st in ctx.decode(k, res["order"][res["seen"][k]].tensor) if st[0]) for k in goal_keys)
         if hops > min_comp:
